@@ -736,39 +736,64 @@ func checkIterationOrder(r *Reporter, p *Prog) {
 				}
 			}
 		})
+		slice := ""
+		if ps := paramObjs(uinfo, fd); len(ps) > 0 {
+			slice = ps[0].Name()
+		}
+		// the ordering operations on the slice (any library spelling of a sort; slices.Reverse),
+		// each with the direction it is confined to ("" = runs for both)
+		type op struct {
+			pt    Point
+			sd    *sortDesc
+			guard string
+		}
+		var ops []op
 		for _, pt := range f.Find(func(n ast.Node) bool {
 			c, ok := n.(*ast.CallExpr)
-			return ok && strings.HasPrefix(exprKey(c.Fun), "sort.")
-		}) {
-			shape := ""
-			inspectNoLit(f.nodeAt(pt), func(m ast.Node) bool {
-				if c, ok := m.(*ast.CallExpr); ok && shape == "" {
-					switch exprKey(c.Fun) {
-					case "sort.Sort":
-						if len(c.Args) == 1 {
-							shape = exprKey(c.Args[0])
-						}
-					case "sort.Strings":
-						if len(c.Args) == 1 {
-							shape = "sort.StringSlice(" + exprKey(c.Args[0]) + ")"
-						}
-					}
-				}
+			if !ok {
+				return false
+			}
+			if sd := recogniseSort(uinfo, c); sd != nil && exprKey(sd.Target) == slice {
 				return true
-			})
+			}
+			return qualifiedCallee(uinfo, c) == "slices.Reverse" && len(c.Args) == 1 && exprKey(c.Args[0]) == slice
+		}) {
+			o := op{pt: pt, sd: sortIn(uinfo, f.nodeAt(pt))}
 			for d, edges := range dirEdges {
 				if _, only := f.OnlyThroughEdges(pt, edges); only {
-					cases[d] = shape
+					o.guard = d
 				}
+			}
+			ops = append(ops, o)
+		}
+		for _, d := range []string{"IterDirectionForward", "IterDirectionBackward"} {
+			var sorts []op
+			for _, o := range ops {
+				if o.sd != nil && (o.guard == "" || o.guard == d) {
+					sorts = append(sorts, o)
+				}
+			}
+			if len(sorts) != 1 || !sorts[0].sd.OK || sorts[0].sd.Kind != "ord" || sorts[0].sd.Key != "@" {
+				continue
+			}
+			desc := sorts[0].sd.Desc
+			bad := false
+			for _, o := range ops {
+				if o.sd == nil && (o.guard == "" || o.guard == d) {
+					// a reversal counts when it follows the sort
+					if _, after := f.reachBlock(sorts[0].pt, nil, func(b *cfg.Block) bool { return b == o.pt.B }, false); after || (o.pt.B == sorts[0].pt.B && o.pt.I > sorts[0].pt.I) {
+						desc = !desc
+					} else {
+						bad = true
+					}
+				}
+			}
+			if !bad {
+				cases[d] = map[bool]string{false: "ascending", true: "descending"}[desc]
 			}
 		}
 	}
-	slice := ""
-	if ps := paramObjs(p.Pkg("kvstore/utils").TypesInfo, fd); len(ps) > 0 {
-		slice = ps[0].Name()
-	}
-	wantF := "sort.StringSlice(" + slice + ")"
-	wantB := "sort.Reverse(sort.StringSlice(" + slice + "))"
+	wantF, wantB := "ascending", "descending"
 	if cases["IterDirectionForward"] == wantF && cases["IterDirectionBackward"] == wantB {
 		r.Pass("order/sortslice", "kvstore/utils.SortSlice", p.posStr(fd.Pos()), "Forward -> ascending byte order, Backward -> reverse")
 	} else {
